@@ -2259,3 +2259,86 @@ Example C04_cost_file_path_instance :
        /\ ser u = [102; 105; 108; 101; 58; 47; 47; 47; 97; 37; 50; 48; 98; 47; 46; 46; 47; 99; 46; 116; 120; 116]
        /\ FilePath.to_file_path true u = FilePath.FOk p /\ C04_CostFile.to_file_path_k u = 57.
 Proof. cbv zeta. split; [vm_compute; reflexivity|]. eexists. split; [vm_compute; reflexivity|]. vm_compute. repeat split. Qed.
+
+(* THE INVENTORY TABLE, THIRD ROUND (Proofs/C04_Table3.v): eleven more of the rows that carried the trivial claim get a claim on
+   the Gallina model of their function.  table3 is computed from C04_Table2.table2 and the list overrides3; the new rows get
+   kind KRange:
+     Url::port (a u16 on every wf_b record, and only with an authority), Url::has_host (false exactly when Url::host() is
+     None; never disagrees with host_str() / domain(); no premise), Origin::is_tuple (false exactly when the ASCII
+     serialization is "null"), Origin::ascii_serialization (ASCII whenever scheme and host text are), SchemeType::is_special
+     / is_file (exactly the six special schemes / exactly "file"; a default port implies special-not-file),
+     parser::ascii_alpha (exactly A-Z a-z), parser::is_windows_drive_letter (exactly letter + ':' or '|'),
+     Serializer::encoding_override (the one Serializer method without panic outcome), Decoder::new (counters start at 0),
+     DataUrl::mime_type (on a result of DataUrl::process: the first component of parse_header on the header text).
+     (1) the key columns of table3 ARE the regenerated inventory T_C04_API;
+     (2) every claim holds (the 48 of table2 and the 10 new ones), hence the claim of every row;
+     (3) every override names exactly one row of table2, a K KByType row with the trivial claim, and its new claim is not
+         the trivial one;
+     (4) the rows that are not overridden keep kind and pinned theorem;
+     (5) exactly the rows of kind K KByType / K KDocumented / K KHarness carry the trivial claim;
+     (6) census: 145 rows with a claim on a model (76 KTheorem, 20 KExact, 17 KOutside, 32 KRange); 16 KByType,
+         2 KDocumented, 4 KHarness: 22 rows with the trivial claim instead of 33;
+     (7) the 22 rows are exactly those of C04_Table3.why_trivial (crate, name, reason), in source order: builders,
+         constructors and field reads / moves without model function (ParseOptions::base_url / encoding_override,
+         Url::options / as_str / into_string, Host::to_owned, SyntaxViolation::description, Parser::for_setter,
+         quirks::internal_components / href, Idna::new, four Config builders, Uts46::new), the 2
+         documented panics (Config::use_idna_2008_rules, AsciiDenyList::new) and the 4 functions without model
+         (ParseOptions::syntax_violation_callback, Url::socket_addrs, serialize_internal, deserialize_internal). *)
+From RU Require Proofs.C04_Table3.
+Theorem C04_no_panic_inventory3 :
+  map C04_Table3.row3_key C04_Table3.table3 = T_C04_API
+  /\ ((forall q, C04_Table3.claim3 q)
+      /\ Forall (fun r => C04_Table3.claim3 (C04_Table3.r3_claim r)) C04_Table3.table3)
+  /\ C04_Table3.overrides3_sound_b = true
+  /\ C04_Table3.table3_keeps_b = true
+  /\ C04_Table3.kinds3_consistent_b = true
+  /\ (length C04_Table3.table3 = 167%nat /\ length C04_Table3.overrides3 = 11%nat /\ C04_Table3.model_rows = 145%nat
+      /\ C04_Table3.count_kind3 (C04_Table2.K C04_Table.KTheorem) = 76%nat
+      /\ C04_Table3.count_kind3 (C04_Table2.K C04_Table.KExact) = 20%nat
+      /\ C04_Table3.count_kind3 (C04_Table2.K C04_Table.KOutside) = 17%nat
+      /\ C04_Table3.count_kind3 C04_Table2.KRange = 32%nat
+      /\ C04_Table3.count_kind3 (C04_Table2.K C04_Table.KByType) = 16%nat
+      /\ C04_Table3.count_kind3 (C04_Table2.K C04_Table.KDocumented) = 2%nat
+      /\ C04_Table3.count_kind3 (C04_Table2.K C04_Table.KHarness) = 4%nat)
+  /\ C04_Table3.why_total_b = true.
+Proof.
+  exact (conj C04_Table3.table3_complete (conj (conj C04_Table3.claims3_hold C04_Table3.table3_sound)
+        (conj C04_Table3.overrides3_sound (conj C04_Table3.table3_keeps (conj C04_Table3.kinds3_consistent
+        (conj C04_Table3.table3_counts C04_Table3.why_total)))))).
+Qed.
+Check C04_no_panic_inventory3 :
+  map C04_Table3.row3_key C04_Table3.table3 = T_C04_API
+  /\ ((forall q, C04_Table3.claim3 q)
+      /\ Forall (fun r => C04_Table3.claim3 (C04_Table3.r3_claim r)) C04_Table3.table3)
+  /\ C04_Table3.overrides3_sound_b = true
+  /\ C04_Table3.table3_keeps_b = true
+  /\ C04_Table3.kinds3_consistent_b = true
+  /\ (length C04_Table3.table3 = 167%nat /\ length C04_Table3.overrides3 = 11%nat /\ C04_Table3.model_rows = 145%nat
+      /\ C04_Table3.count_kind3 (C04_Table2.K C04_Table.KTheorem) = 76%nat
+      /\ C04_Table3.count_kind3 (C04_Table2.K C04_Table.KExact) = 20%nat
+      /\ C04_Table3.count_kind3 (C04_Table2.K C04_Table.KOutside) = 17%nat
+      /\ C04_Table3.count_kind3 C04_Table2.KRange = 32%nat
+      /\ C04_Table3.count_kind3 (C04_Table2.K C04_Table.KByType) = 16%nat
+      /\ C04_Table3.count_kind3 (C04_Table2.K C04_Table.KDocumented) = 2%nat
+      /\ C04_Table3.count_kind3 (C04_Table2.K C04_Table.KHarness) = 4%nat)
+  /\ C04_Table3.why_total_b = true.
+Print Assumptions C04_no_panic_inventory3.
+
+(* non-vacuity of the new claims: concrete values *)
+Example C04_inventory3_instances :
+  (let u := mkUrl [104; 116; 116; 112; 58; 47; 47; 97; 58; 56; 49; 47] 4 7 7 8 HI_Domain (Some 81) 11 None None in
+   wf_b u = true /\ port u = Some 81 /\ has_host u = true /\ host_str u = Some (Some [97]))
+  /\ has_host (mkUrl [120; 58; 97] 1 2 2 2 HI_None None 2 None None) = false
+  /\ Origin.is_tuple (Origin.Tuple s_https (HDomain [97; 46; 98]) 8443) = true
+  /\ Origin.ascii_serialization (fun _ => []) (Origin.Tuple s_https (HDomain [97; 46; 98]) 8443)
+     = [104; 116; 116; 112; 115; 58; 47; 47; 97; 46; 98; 58; 56; 52; 52; 51]
+  /\ Origin.ascii_serialization (fun _ => []) (Origin.Opaque 7) = [110; 117; 108; 108]
+  /\ st_is_special (scheme_type_of s_wss) = true /\ st_is_file (scheme_type_of s_file) = true
+  /\ st_is_special (scheme_type_of [100; 97; 116; 97]) = false
+  /\ is_alpha 122 = true /\ is_alpha 91 = false
+  /\ is_wdl [67; 124] = true /\ is_normalized_wdl [67; 124] = false /\ is_wdl [67; 58; 47] = false
+  (* data:a/b;base64,eA *)
+  /\ (exists u, DataUrl.process [100; 97; 116; 97; 58; 97; 47; 98; 59; 98; 97; 115; 101; 54; 52; 44; 101; 65] = Mime.Ok (inl u)
+                /\ Mime.m_type (DataUrl.mime_type u) = [97] /\ Mime.m_subtype (DataUrl.mime_type u) = [98]
+                /\ DataUrl.du_base64 u = true).
+Proof. vm_compute. repeat split. eexists. repeat split. Qed.
